@@ -1328,6 +1328,9 @@ class Transport(threading.Thread, ClosingContextManager):
         try:
             if len(self.server_accepts) > 0:
                 chan = self.server_accepts.pop(0)
+            elif not self.active:
+                # the connection has ended: nothing will arrive (or wake us)
+                chan = None
             else:
                 self.server_accept_cv.wait(timeout)
                 if len(self.server_accepts) > 0:
@@ -2337,7 +2340,7 @@ class Transport(threading.Thread, ClosingContextManager):
                     event.set()
                 try:
                     self.lock.acquire()
-                    self.server_accept_cv.notify()
+                    self.server_accept_cv.notify_all()
                 finally:
                     self.lock.release()
             self.sock.close()
